@@ -219,6 +219,15 @@ def nontrivial(c):
 
 
 def run(r):
+    # protocol part (exploration shared with C05): the real server, after an unmodified document was opened and closed,
+    # answers go-to-definition / hover / references inside an import-free package exactly as before
+    import random
+    import C05
+    quick = r.tier == "quick"
+    bad, stats, _ = C05.explore_handlers(r, random.Random(r.seed * 41 + 7), int(os.environ.get("VERIF_H2_WORKSPACES", 8 if quick else 40)), set(core.tables()["stdlib_modules"]))
+    for b in [x for x in bad if x["why"].startswith("opening and closing")][:1]:
+        r.violation(dict({"property": PID, "part": "handlers"}, **b), "h2_close")
+    r.extra_coverage = {"handler_part": {k: v for k, v in stats.items() if k in ("workspaces", "open_close")}}
     try:
         return runner.drive_ws(r, sys.modules[__name__])
     finally:
